@@ -141,7 +141,7 @@ func scalarValueGuard(r *core.Run) {
 					return true
 				}
 				base := core.ExprStr(s.X)
-				o := r.Add("R-FLOW/optkind", fmt.Sprintf("protoprint.%s | %s.ScalarValue", core.FuncName(fd), base), s.Pos(), "read of "+base+".ScalarValue")
+				o := r.Add("R-FLOW/optkind", fmt.Sprintf("protoprint.%s | %s.ScalarValue", core.FuncName(fd), core.NormExpr(info, s.X)), s.Pos(), "read of "+base+".ScalarValue")
 				f := rules.FactsAt(info, fd.Body, s)
 				ok2 := false
 				for k := range f.True {
